@@ -20,7 +20,7 @@ func main() {
 	run.Assume("nonce pairs are unique by construction (255 random bits)", "signing sources exercised here: direct requests and end-block retries; oracle/tunnel/transition sources are driven by C08/C13/C18 with the same monitor")
 	var mon []*tssworld.DEMonitor
 	_ = mon
-	n := run.N(32, 1500)
+	n := run.N(128, 1500)
 	tssworld.RunCases(run, "c05", n, func(r *sim.Rng, i int) tssworld.Cfg {
 		nm := r.Range(2, 6)
 		return tssworld.Cfg{
